@@ -77,3 +77,21 @@ Proof. exact pi_new_events_at_common_point. Qed.
 Theorem C16_bump_is_identity_over_exact_arithmetic :
   forall (p : pt NQ) (c : bool), (if c then mkPt NQ (next_upX NQ (px p)) (py p) else p) = p.
 Proof. exact bump_dead_exact. Qed.
+
+(** last clause, exact instance, non-parallel segments: the kernel's answer does not depend on
+    the order of the two segments ([LNone] for both orders or for neither; equal points) *)
+From GB Require Import IntersectSym.
+Theorem C16_order_independent_none :
+  forall a1x a1y a2x a2y b1x b1y b2x b2y : Q,
+  ~ det a1x a1y a2x a2y b1x b1y b2x b2y == 0 ->
+  (intersection (fpt a1x a1y) (fpt a2x a2y) (fpt b1x b1y) (fpt b2x b2y) = LNone <->
+   intersection (fpt b1x b1y) (fpt b2x b2y) (fpt a1x a1y) (fpt a2x a2y) = LNone).
+Proof. exact intersection_none_sym. Qed.
+Theorem C16_order_independent_point :
+  forall a1x a1y a2x a2y b1x b1y b2x b2y : Q,
+  ~ det a1x a1y a2x a2y b1x b1y b2x b2y == 0 ->
+  forall x y,
+  intersection (fpt a1x a1y) (fpt a2x a2y) (fpt b1x b1y) (fpt b2x b2y) = LPoint (fpt x y) ->
+  exists x' y', intersection (fpt b1x b1y) (fpt b2x b2y) (fpt a1x a1y) (fpt a2x a2y) = LPoint (fpt x' y')
+                /\ x' == x /\ y' == y.
+Proof. exact intersection_point_sym. Qed.
